@@ -148,6 +148,10 @@ def inputs(rng, tier):
 
 def run(prop, tier, seed, rep):
     rng = random.Random(seed * 1000003 + 5)
+    res = core.run_mc("MC_CPR", workers=8, timeout=3000)
+    rep.add_model(res, "MC_CPR")
+    if not res["ok"]:
+        raise core.ToolError(f"MC_CPR fails on the specification itself: {res['violated']}")
     hx = core.build_hx("std")
     ins = inputs(rng, tier)
     r = subprocess.run([hx, "pair"], input="\n".join(json.dumps(x) for x in ins) + "\n", stdout=subprocess.PIPE,
